@@ -100,6 +100,7 @@ def run(tier):
             if sig not in seen:
                 rp = path if path.startswith(common.SEEDS) else common.save_replay(PROP, 'c16-' + common.sha(open(path, 'rb').read()), open(path, 'rb').read())
                 common.violation(PROP, rp, '%s variant=%s' % (sig, v))
+                print(fuzz.detail(binary(v), rp))
         seen.add(sig)
     ev.write()
     shutil.rmtree(work, ignore_errors=True)
